@@ -1,22 +1,43 @@
 #!/venv/bin/python
-"""print the Markdown table of seeded changes (seeded/*/meta.json) for DESIGN.md section 11"""
-import glob, json, os
+"""tools/seed_table.py [--full] : Markdown table of seeded changes (seeded/*/meta.json). Default: compact rows for DESIGN.md section 11;
+--full: long rows for seeded/TABLE.md"""
+import glob, json, os, sys
+full = "--full" in sys.argv
 rows = []
+stats = {}
 for d in sorted(glob.glob("/verif/seeded/*")):
     try:
         m = json.load(open(os.path.join(d, "meta.json")))
     except Exception:
         continue
     tag = os.path.basename(d)
+    rnd = {"A": 1, "B": 1, "C": 2, "D": 2, "E": 3, "F": 3}[tag[-1]]
     caught = m.get("caught_by") or []
     mechs = []
     for p in caught:
-        mechs += ["%s:%s" % (p, x) for x in m["checks_run"][p]["mechanisms"][:2]]
+        mechs += ["%s:%s" % (p, x) for x in (m.get("checks_run", {}).get(p, {}).get("mechanisms") or [])[:2]]
     first = m.get("first_run_caught_by")
-    note = ""
-    if first is not None and not first:
-        note = " (missed at first; caught after the strengthening described in section 9)"
-    rows.append("| %s | %s | %s | %s%s |" % (tag, (m.get("summary") or "").replace("|", "/")[:170], (m.get("needs_to_manifest") or "").replace("|", "/")[:150],
-                                            ", ".join("`%s`" % x for x in mechs) if mechs else "**not caught**", note))
-print("| seed | change | needs | caught by (check:mechanism) |\n|---|---|---|---|")
+    missed_first = first is not None and not first
+    if m.get("judged_out_of_domain") or tag in ("C19-A", "C31-A"):
+        status = "not a violation as stated (see below)"
+        key = "out"
+    elif m.get("obsolete_on_head"):
+        status = "obsolete: does not manifest on the repaired tree (was caught while it did)"
+        key = "obsolete"
+    elif caught:
+        status = ", ".join("`%s`" % x for x in mechs[: (4 if full else 2)]) or "caught"
+        key = "caught_after" if missed_first else "caught"
+        if missed_first:
+            status += " — *missed by the first run*"
+    else:
+        status = "**not caught**"
+        key = "miss"
+    st = stats.setdefault(rnd, {})
+    st[key] = st.get(key, 0) + 1
+    n = 400 if full else 95
+    rows.append("| %s | %s | %s | %s |" % (tag, (m.get("summary") or "").replace("|", "/").replace("\n", " ")[:n], (m.get("needs_to_manifest") or "").replace("|", "/").replace("\n", " ")[:n], status))
+print("| seed | change | needs | result of the property's quick check (check:mechanism) |\n|---|---|---|---|")
 print("\n".join(rows))
+print()
+for r in sorted(stats):
+    print("round %d: %s" % (r, stats[r]))
